@@ -361,4 +361,26 @@ CHECKS = {
             {"harness": "VH_C06", "quick": {"msg": 2, "attrkinds": 5, "hygiene": 1}, "thorough": {"msg": 3, "attrkinds": 5, "hygiene": 1}, "covers": ["C06:rendered"]},
         ],
     },
+    "C08": {
+        "explanation": "Goroutine interleavings are NOT explored (the engine executes one goroutine). Decided on the real code instead: the "
+                       "sequential ownership discipline that makes concurrent calls independent. For every log call shape (root and child "
+                       "logger with logger-level attributes including a shared Group, per-call attributes including the same Group value, "
+                       "3 formats, single/multi-line message, error values, Info and WriteThru entry points; the Group's members in every "
+                       "order over two keys, i.e. sorted, unsorted and duplicated) the engine's write-set monitor checks that every store, "
+                       "map update, copy and in-place append executed between entry and return targets memory allocated during the call "
+                       "or an object checked out of a sync.Pool during it (sync/atomic stubs and the destinations' own writes exempt); "
+                       "and the harness compares snapshots of everything reachable from the call's inputs (loggers' attribute slices, "
+                       "the shared group's member slice, the caller's attribute slice) before and after. Reduction (argued, not checked): "
+                       "if every call writes only memory it owns, two concurrent calls share only memory neither writes, so there is no "
+                       "data race between them and each payload is built in private memory.",
+        "bounds": {"quick": "groups of 1..3 members over keys {a,b}; 4 argument shapes; 2 logger shapes; 3 formats; 2 messages; 2 entry points",
+                   "thorough": "same (covered at quick)"},
+        "outside": "any race that needs two goroutines to manifest and is not a violation of the ownership discipline; reconfiguration during logging; "
+                   "global tables written by RegisterLevel/SetFlags; races inside the standard library or the destinations; delivery multiset (C02/C13 decide one Write per call)",
+        "assumptions": ["sync.Pool hands an object to one goroutine at a time; sync/atomic is atomic; destinations are safe for concurrent Write",
+                        "monitor violations are engine observations (label suffix [engine]): their replay is the deterministic re-execution by the engine; the snapshot assertions replay natively"],
+        "runs": [
+            {"harness": "VH_C08", "covers": ["C08:called", "C08:writethru"]},
+        ],
+    },
 }
